@@ -502,6 +502,11 @@ func checkCli(c CliCase) error {
 			}
 			comp += ");\n"
 		}
+		if len(comp)%2 == 0 {
+			// the compared-tree file holds a second tree, on other tips: the command works with the first
+			// tree of the file
+			comp += "(zz_far1,zz_far2,(zz_far3,zz_far4));\n"
+		}
 		compText = comp
 		args = append(args, "-c", cli.WriteIn(dir, "comp.nw", comp))
 	}
@@ -602,7 +607,7 @@ func TestC06Cli(t *testing.T) {
 			}
 			c.Reroot = 0
 			if c.Mode == "file" {
-				c.Layout = rapid.SampledFrom([]string{"lines", "lines", "commas", "long", "exact"}).Draw(t, "layout")
+				c.Layout = rapid.SampledFrom([]string{"lines", "blank", "commas", "long", "exact"}).Draw(t, "layout")
 				if c.Layout == "long" || c.Layout == "exact" {
 					c.Boundary = rapid.SampledFrom([]int{4096, 4096, 8192, 65536}).Draw(t, "boundary")
 					c.Straddle = rapid.IntRange(0, 1000).Draw(t, "straddle")
